@@ -604,6 +604,21 @@ def ast_oracle(R, ast):
   if not alias_prefix_of_own_module(R, ast) and \
       R.msgspec.msgpack.Encoder(order="deterministic").encode(su.SerializeAst(d.ast)) != b:
     return "bytes differ from the deterministic (sorted) encoding"
+  # history: a loader links the decoded AST in place (serialize_ast.FillLocalReferences / ProcessAst); a later decode of
+  # the SAME bytes in the same process must still be the pointer-free canonical declarations and re-encode to them
+  try:
+    d.ast.Visit(R.visitors.FillInLocalPointers({"": d.ast, d.ast.name: d.ast}))   # in place, as ProcessAst does
+    d2 = pu.DecodeAst(b)
+    d3 = pu.DecodeAst(bytes(bytearray(b)))
+    for dd in (d2, d3):
+      if any(c.cls is not None for c in collect_class_types(R, dd.ast)):
+        return "a later DecodeAst of the same bytes returns ClassType pointers filled in by the user of an earlier decode"
+      if val_noptr(R, dd.ast) != val_noptr(R, canon):
+        return "a later DecodeAst of the same bytes differs from the first"
+      if pu.Encode(dd) != b:
+        return "Encode(second DecodeAst(bytes)) gives different bytes"
+  except Exception as e:  # pylint: disable=broad-except
+    return "decoding the same bytes again after linking the first result raised %s: %s" % (type(e).__name__, str(e)[:200])
   return None
 
 
